@@ -43,13 +43,14 @@ class TraceRun:
     single region/input that produced the line).  Pass 2 (settle): the candidates are re-recorded in ONE
     fresh process in detail mode and validated again; the keys of the rejections of pass 2 are final."""
 
-    def __init__(self, ctx, envvar, module, constants, keyprefix, keyfn=None):
+    def __init__(self, ctx, envvar, module, constants, keyprefix, keyfn=None, suffixes=()):
         self.ctx = ctx
         self.envvar = envvar
         self.module = module
         self.constants = constants
         self.keyprefix = keyprefix
         self.keyfn = keyfn or (lambda rel, info, reg: "%s/%s/%s" % (keyprefix, rel, reg.get("cls", "?")))
+        self.suffixes = suffixes   # magnitude suffixes the detail pass may append to a relation name
         self.n = 0
         self.events = 0
 
@@ -153,7 +154,10 @@ def settle(ctx, tr, cands, reps=2, limit=60):
         cid = info["cid"]
         prov = owner[cid]
         # the provisional key is reproduced when the same strict relation is rejected again for that input
-        base = rel.replace("-ulp", "").replace("-small", "")
+        base = rel
+        for sfx in tr.suffixes:
+            if base.endswith(sfx):
+                base = base[:-len(sfx)]
         if prov == "%s/%s/%s" % (tr.keyprefix, base, reg.get("cls", "?")):
             reproduced.add(prov)
             final.setdefault(tr.keyfn(rel, info, reg), (detail, cases[cid]))
@@ -218,10 +222,12 @@ def run(ctx):
         "sub-region clause only for grid rectangles that do not touch a pole (documented restriction of ExpandForSubregions)",
         "polyline edge-interior points (s2.Interpolate) are compared with the latitude bound with a slack of 1e-14 rad: a gross-error "
         "detector, not a documented guarantee; polyline vertices are hard witnesses",
+        "the verdict of every relation is strict; in the confirmation pass a rejected bound relation gets a magnitude suffix in its key "
+        "(-ulp: satisfied when the witness coordinates move by 1e-14, -small: 1e-6) computed from slackened copies logged by the harness",
         "hull: exact vertex cycle predicted on the dyadic embedding always and on the unit embedding only when no triple is exactly "
         "collinear; otherwise strictly extreme points must be vertices and strictly interior points must not",
     ]
-    tr = TraceRun(ctx, "VERIF_C10_TRACE", "Trace_Bounds", {"N": 1}, "c10", keyfn=c10_key)
+    tr = TraceRun(ctx, "VERIF_C10_TRACE", "Trace_Bounds", {"N": 1}, "c10", keyfn=c10_key, suffixes=("-ulp", "-small"))
     cands = []
 
     # ---- direction A: convex hull of lattice point sets
@@ -281,13 +287,13 @@ def run(ctx):
 
     # ---- direction B: seeded float families
     fam = []
-    for name, cnt in (("cap", 16), ("cell", 40), ("cellunion", 16), ("rect", 30), ("loop", 10), ("meridian", 24), ("polyline", 60), ("hull", 60)):
+    for name, cnt in (("cap", 16), ("cell", 40), ("cellunion", 16), ("rect", 30), ("loop", 10), ("meridian", 24), ("index", 40), ("polyline", 60), ("hull", 60)):
         for k in range(1 if q else 5):
             fam.append({"op": "c10.rand", "family": name, "seed": ctx.seed * 100 + k, "count": cnt})
 
     batch = cases + w2 + w1 + fam
     # trace files of at most ~120k events each (TLC validates 5-8k events/s and keeps the whole file in memory)
-    est = {"c10.hull": 0, "c10.w2": 1400, "c10.w1": 360, "cap": 1150, "cell": 215, "cellunion": 450, "rect": 160, "loop": 700, "meridian": 700,
+    est = {"c10.hull": 0, "c10.w2": 1400, "c10.w1": 360, "cap": 1150, "cell": 215, "cellunion": 450, "rect": 160, "loop": 700, "meridian": 700, "index": 120,
            "polyline": 25, "hull": 3}
     group, size = [], 0
     for c in batch:
